@@ -17,10 +17,11 @@ pub fn registry(property: &str) -> Option<CheckSpec> {
             property: "C39",
             level: "exploration",
             parts: vec![
-                Part::new(sim::CompetitionSim, 200_000, 4_000_000),
+                Part::new(sim::CompetitionSim, 150_000, 3_000_000),
                 Part::new(real::CompetitionReal, 1_500, 30_000),
             ],
             assumptions: vec![
+                "the cluster clock is monotone as on Solana (Bank::update_clock never lets unix_timestamp fall below the parent's): stalls, 1 s steps, coarse steps, jumps and extreme forward jumps are generated, backward steps are not".into(),
                 "a trade is 'counted' when the documented rules say so: the order succeeded, the cluster time is inside [start_time, end_time], a trade event of that trader is attached and the (absolute / increase-only) change of size_in_usd is non-zero".into(),
                 "totals saturate at u128::MAX (big-integer sum clamped), as the program documents with saturating_add".into(),
                 "the store side of the callback is forged (callback-authority PDA flagged as signer, trade-event account written directly); the `competition_real_store` part checks on real orders that the forged instruction and event equal what gmsol_store sends".into(),
